@@ -356,7 +356,20 @@ def replay(pid, payload):
         kw = dict(spec="TopoTrace", cfgfile="TopoTrace.cfg") if ops & {"topo", "refresh"} else \
             dict(spec="OrderTrace", cfgfile="OrderTrace.cfg") if nreq > 1000 else \
             dict(spec="RawTrace", cfgfile="RawTrace.cfg") if ops & {"npause", "nreadsome"} else {}
-        r = common.replay_and_validate(payload["cfg"], [payload["scenario"]], wd, "replay", par=1, **kw)
+        scs = [payload["scenario"]]
+        if payload["scenario"].get("role") == "seg" and "cclose" not in ops:
+            # a segmented twin is judged against its unsegmented base: the same requests, every write whole
+            base = json.loads(json.dumps(payload["scenario"]))
+            base["role"], base["id"] = "base", base["id"] + "-base"
+            for stp in base["steps"]:
+                stp["stim"] = [x for x in stp["stim"] if x["op"] != "sendrest"]
+                for x in stp["stim"]:
+                    if x["op"] == "send":
+                        x["cuts"] = []
+                        x["kind"] = ""
+            scs = [base, payload["scenario"]]
+            kw = dict(kw, group=2)
+        r = common.replay_and_validate(payload["cfg"], scs, wd, "replay", par=1, **kw)
         out = []
         for v in r["viol"]:
             if ops & {"npause"} and (v["code"].startswith("request-") or v["code"] == "malformed-request-forwarded"):
